@@ -8,6 +8,15 @@ pub const CORPUS_README: &str = include_str!("../../corpus/readme_exprs.txt");
 /// Expressions named in the property records and found while probing (deviations and their
 /// conforming neighbours).
 pub const CORPUS_EXTRA: &[&str] = &[
+    // Classes with a range written end first (they build and match nothing; round 7, C11-H).
+    "[b-a]",
+    "x[z-a]y",
+    "dir/[9-0].txt",
+    "[b-ab]",
+    "[9-0]/a",
+    "{[b-a],c}",
+    "<[z-a]:2>",
+    "a[!b-a]",
     "v(?-i)[2]/*.rs",
     "(?i)[a]/b/*",
     "a(?i)[b]c/**/*.txt",
